@@ -8,6 +8,7 @@ package main
 import (
 	"bufio"
 	"encoding/hex"
+	"encoding/json"
 	"fmt"
 	"math/rand"
 	"os"
@@ -20,6 +21,9 @@ import (
 	"github.com/corestario/kyber/pairing"
 	"github.com/corestario/kyber/pairing/bls12381"
 	"github.com/corestario/kyber/share"
+	"github.com/lidofinance/dc4bc/client/api/dto"
+	"github.com/lidofinance/dc4bc/client/modules/state"
+	"github.com/lidofinance/dc4bc/client/services/fsmservice"
 	"github.com/lidofinance/dc4bc/dkg"
 	"github.com/lidofinance/dc4bc/fsm/fsm"
 	sm "github.com/lidofinance/dc4bc/fsm/state_machines"
@@ -129,6 +133,61 @@ type fsmWorld struct {
 	nOps  int
 	hist  map[string]int
 	mon   *fsmMonitor
+	// the node's own round store (fsmservice on a LevelDB state): every kept dump also goes through it (C19)
+	svc    fsmservice.FSMService
+	svcN   int
+	svcMon func(string)
+}
+
+// storeRoundTrip: SaveFSM, then the three ways the node and the API read a round back (GetFSMInstance without
+// creation, GetFSMDump, GetFSMList) must show the saved round, in the saved state, with the saved payload.
+func (w *fsmWorld) storeRoundTrip(bz []byte) {
+	if w.svc == nil {
+		return
+	}
+	w.svcN++
+	id := fmt.Sprintf("stored-%d", w.svcN%8)
+	want := rDumpBytes(bz)
+	state := dumpStateOf(bz)
+	bad := func(what string) {
+		w.svcMon(fmt.Sprintf("C19 store_roundtrip: a round saved in %s: %s", state, what))
+	}
+	if err := w.svc.SaveFSM(id, bz); err != nil {
+		bad("SaveFSM fails: " + truncate(err.Error(), 120))
+		return
+	}
+	inst, err := w.svc.GetFSMInstance(id, false)
+	if err != nil || inst == nil {
+		bad(fmt.Sprintf("GetFSMInstance does not find it (%v)", err))
+	} else if back, derr := inst.Dump(); derr != nil || rDumpBytes(back) != want {
+		bad("GetFSMInstance gives a different round: " + truncate(rDumpBytes(back), 200) + " instead of " + truncate(want, 200))
+	}
+	if inst2, err := w.svc.GetFSMInstance(id, true); err == nil && inst2 != nil {
+		if back, derr := inst2.Dump(); derr != nil || rDumpBytes(back) != want {
+			bad("GetFSMInstance (create if missing) gives a different round: " + truncate(rDumpBytes(back), 200))
+		}
+	} else {
+		bad(fmt.Sprintf("GetFSMInstance (create if missing) fails (%v)", err))
+	}
+	if d, err := w.svc.GetFSMDump(&dto.DkgIdDTO{DkgID: id}); err != nil || d == nil {
+		bad(fmt.Sprintf("GetFSMDump does not find it (%v)", err))
+	} else if string(d.State) != state {
+		bad("GetFSMDump shows state " + string(d.State))
+	}
+	if l, err := w.svc.GetFSMList(); err != nil {
+		bad("GetFSMList fails: " + truncate(err.Error(), 120))
+	} else if l[id] != state {
+		bad(fmt.Sprintf("GetFSMList shows %q for it", l[id]))
+	}
+	if ok, err := w.svc.IsExist(id); err != nil || !ok {
+		bad(fmt.Sprintf("IsExist says %v (%v)", ok, err))
+	}
+}
+
+func dumpStateOf(bz []byte) string {
+	var d struct{ State string }
+	json.Unmarshal(bz, &d)
+	return d.State
 }
 
 func (w *fsmWorld) emit(op, ob string) {
@@ -213,6 +272,7 @@ func (w *fsmWorld) keep() (int, bool) {
 		w.emit("keep", "kept-unrestorable")
 		return -1, false
 	}
+	w.storeRoundTrip(bz)
 	w.store = append(w.store, bz)
 	w.emit("keep", fmt.Sprintf("kept %d", len(w.store)-1))
 	return len(w.store) - 1, true
@@ -541,6 +601,19 @@ func runFsmDiff(outDir string, seed int64, tier string) {
 	w := &fsmWorld{ops: bufio.NewWriterSize(fo, 1<<20), obs: bufio.NewWriterSize(fb, 1<<20), hist: map[string]int{}}
 	st := &fsmStats{Exhaustive: true}
 	w.mon = &fsmMonitor{st: st, seen: map[string]bool{}}
+	if ldb, err := state.NewLevelDBState(filepath.Join(outDir, "fsm-store"), "verif"); err == nil {
+		w.svc = fsmservice.NewFSMService(ldb, nil, "verif")
+		storeSeen := map[string]int{}
+		w.svcMon = func(m string) {
+			k := monitorKind(m)
+			if storeSeen[k]++; storeSeen[k] <= 5 {
+				st.Monitors = append(st.Monitors, m)
+			}
+		}
+		defer os.RemoveAll(filepath.Join(outDir, "fsm-store"))
+	} else {
+		st.Monitors = append(st.Monitors, "harness: fsm store: "+err.Error())
+	}
 	rng := rand.New(rand.NewSource(seed))
 	type cfg struct{ n, t int }
 	var cfgs []cfg
